@@ -58,6 +58,13 @@ def check(ctx):
     from . import c03
     with ctx.shared({'C03': 'C07.4'}):
         c03._renewal(ctx, nz, ctx.index.get_class(K.SCHED, 'Server'), loop)
+    # shared with C01.6: a victim goes back to its server with its recorded
+    # expiry whatever its lease - the restore neutralises the lease
+    # completely, so a displaced instance is not lost to the lifetime test
+    from . import c01
+    srv_cls = ctx.index.get_class(K.SCHED, 'Server')
+    _nz1, _srv1, _ncls1, put1, _rm1, _pred1 = c01._roles(ctx)
+    c01._restore(ctx, srv_cls, put1, rule='C07.4')
     body = loop.body()
     queue = N.txt(head.ast.iter)
     # ---- C07.1 -----------------------------------------------------------
